@@ -80,12 +80,13 @@ PROPS = {
     'C08': {
         'oracles': ['C08'],
         'geoms': {'quick': ['default', 'th1'], 'thorough': ALLG},
-        'runs': {'quick': [seq('malformed', 30, 150), unit('meta', 400)],
-                 'thorough': [seq('malformed', 600, 300), seq('mixed', 200, 300), unit('meta', 40000)]},
+        'runs': {'quick': [seq('malformed', 30, 150), seq('zone', 15, 150), unit('meta', 400)],
+                 'thorough': [seq('malformed', 600, 300), seq('mixed', 200, 300), seq('zone', 300, 300), unit('meta', 40000)]},
         'rule': S_RULE + (' Malformed stream: orders up to TREE_ORDER+3, frames at/around the range end, misaligned by 1..2^k-1, '
                           'beyond the range and near usize::MAX, classes 0..7 against 1-3 configured; every rejected call must '
                           'leave the digest of all three buffers unchanged. unit meta: LLFree::new over buffers carved from one '
-                          'arena: exact size, one byte short, offset by 1..63, overlapping pairs.'),
+                          'arena: exact size, one byte short, offset by 1..63, overlapping pairs. Zone flavor: targets and frees below, at and '
+                          'above the zone offset; a call below the offset must answer Argument and change nothing.'),
         'assumptions': ['class ids are 0..7 (a larger id indexes the 8-entry class table out of bounds in the source)'],
     },
     'C20': {
@@ -143,8 +144,8 @@ PROPS = {
         'rule': T_RULE + ('Oracle: every block returned by any thread is aligned, in range, equal to the target if one was given, and '
                           'disjoint from every block held by any thread at that moment; at the quiescent end the metadata equals the '
                           'blocks handed out. Sequential part: ' + S_RULE),
-        'partial': ('all-interleavings statement not a theorem: sequential freshness/disjointness proved at the public interface (seq_get_fresh, every '
-                    'history), concurrent part explored by scheduler-controlled runs replayed on the Lean interleaving semantics'),
+        'partial': ('all sequential histories proved at the public interface; every interleaving of any number of threads proved at the bitfield level '
+                    '(Bitfield::toggle, all orders); search, counters/markers and the upper level under interleavings explored by scheduler-controlled runs'),
         'assumptions': ['hooked atomics: a yield point before every Atom access; compare_exchange never fails spuriously (x86-64/strong CAS)'],
     },
     'C02': {
@@ -169,8 +170,8 @@ PROPS = {
         'rule': T_RULE + ('Oracle: no call panics (panic capture per thread) and every free of a block the thread holds returns Ok. '
                           'The known finding K1 (spin in partial_put_huge exhausts RETRIES) is matched by its panic message. '
                           'Sequential histories (a special case of interleavings) with panic capture and the ownership oracle: ' + S_RULE),
-        'partial': ('the property is refuted for the unchanged code by a kernel-checked schedule (K1, recorded as known finding); sequential '
-                    'panic-freedom and success of held frees proved for every history; other concurrent panic sites explored, not proved'),
+        'partial': ('refuted for the unchanged code by a kernel-checked schedule (K1, known finding); sequential half proved for every history; every '
+                    'interleaving proved at the bitfield level (no panic, held frees succeed); other concurrent panic sites explored, not proved'),
         'assumptions': ['hooked atomics: a yield point before every Atom access; compare_exchange never fails spuriously'],
     },
     'C04': {
@@ -187,7 +188,7 @@ PROPS = {
         'assumptions': [],
     },
     'C05': {
-        'oracles': ['C05'],
+        'oracles': ['C05'], 'bv_decide': True,
         'geoms': {'quick': ['default', 'th1'], 'thorough': ALLG},
         'runs': {'quick': [conc(10, 40, 20, 0, crash_every=3), seq('mixed', 15, 150)],
                  'thorough': [conc(120, 300, 150, 0, crash_every=1, bound=3), seq('mixed', 300, 300), unit('nvm', 500)]},
@@ -195,8 +196,8 @@ PROPS = {
                           'buffer is copied; the copy is recovered by the real LLFree::new(Init::Recover) with zeroed volatile buffers; every block '
                           'held by a completed call must be allocated and freeable at its order, stats/tree_stats must agree (validate), and at most '
                           'the frames of the calls in flight may be missing. Sequential: recover at quiescent points compared with the model.'),
-        'partial': ('per-entry decision logic of recover proved (marker kept + bitfield cleared, counter := zero bits, fixpoint on consistent '
-                    'entries); the lift to the recover loop and to every crash point of every interleaving is explored, not proved'),
+        'partial': ('recovery proved from every state satisfying the weak invariant (re-establishes both invariants, keeps the allocation status of every '
+                    'frame); that every crash state of every interleaving satisfies it and reflects completed allocations is explored, not proved'),
         'assumptions': ['crash = loss of everything but the lower buffer at an atomic-access boundary (no torn 64-bit writes, no reordering of persisted stores)'],
     },
     'C06': {
